@@ -347,6 +347,26 @@ Definition jsr_names_agree (w : service) (r : route) : bool :=
   names_agree (s_root w) && names_agree (r_rel r).
 
 (* ------------------------------------------------------------------------- *)
+(* RouterJSR311 and the trailing slash (C14): the tables the theorem is about *)
+Section SpecSlashJsr.
+Variable O : oracles.
+(* expression tokens without tail wildcard, literals non-empty, regexes not matching "" *)
+Definition etok_plain (e : etok) : bool :=
+  match e with
+  | ELit s => negb (str_eqb s [])
+  | EVar => true
+  | ERx re => negb (o_rxfull O re [])
+  | EAll => false
+  end.
+
+(* which tables: no tail wildcard, literals non-empty (they are: empty tokens are skipped), regexes refuse "" *)
+Definition template_plain (template : str) : bool := forallb etok_plain (pe_toks (path_expression template)).
+Definition table_plain (t : table) : bool :=
+  forallb (fun w => template_plain (s_root w) && forallb (fun r => template_plain (r_rel r)) (s_routes w)) (t_services t).
+
+End SpecSlashJsr.
+
+(* ------------------------------------------------------------------------- *)
 (* router-independent wrappers                                                *)
 Section SpecBoth.
 Variable O : oracles.
